@@ -171,4 +171,75 @@ def dataFragmentDec (data : Bytes) : Outcome App.AP :=
     let p ← slice data 2 data.length
     ok (.dataFragment (b1 >>> 6) (leNat n % 16384) p)
 
+/-! ### CFList and join-accept payload (payload.go) -/
+
+/-- the channel loop of `CFListChannelPayload.UnmarshalBinary`: data[i*3], data[i*3+1], data[i*3+2] for i < len/3 -/
+def cfChannelsLoop (data : Bytes) : Nat → Nat → Outcome (List (BitVec 32))
+  | 0, _ => ok []
+  | k+1, i => do
+    let b0 ← index data (i * 3)
+    let b1 ← index data (i * 3 + 1)
+    let b2 ← index data (i * 3 + 2)
+    let r ← cfChannelsLoop data k (i + 1)
+    ok (freq100Dec [b0, b1, b2] :: r)
+
+/-- `CFListChannelPayload.UnmarshalBinary` -/
+def cfChannelsDec (data : Bytes) : Outcome (List (BitVec 32)) :=
+  if data.length > 15 then err
+  else if data.length % 3 != 0 then err
+  else do
+    let new ← cfChannelsLoop data (data.length / 3) 0
+    ok (new ++ (List.replicate 5 (0 : BitVec 32)).drop (data.length / 3))
+
+/-- the mask loop of `CFListChannelMaskPayload.UnmarshalBinary`: data[i*2 : i*2+2] for i < len/2 (after `data = data[:len-len%2]`) -/
+def cfMasksSlices (data : Bytes) : Nat → Nat → Outcome (List (BitVec 16))
+  | 0, _ => ok []
+  | k+1, i => do
+    let s ← slice data (i * 2) (i * 2 + 2)
+    let m ← chMaskDec 0 s
+    let r ← cfMasksSlices data k (i + 1)
+    ok (m :: r)
+
+/-- `CFListChannelMaskPayload.UnmarshalBinary` -/
+def cfMasksDec (data : Bytes) : Outcome (List (BitVec 16)) :=
+  if data.length > 15 then err
+  else do
+    let d ← slice data 0 (data.length - data.length % 2)
+    let ms ← cfMasksSlices d (d.length / 2) 0
+    ok (cfMasksLoop ms [] [])
+
+/-- `CFList.UnmarshalBinary`: data[15], data[:15] -/
+def cfListDec (data : Bytes) : Outcome CFList :=
+  if data.length != 16 then err
+  else do
+    let t ← index data 15
+    let body ← slice data 0 15
+    if t == 1 then do
+      let m ← cfMasksDec body
+      ok { payload := .masks m, typ := t }
+    else do
+      let c ← cfChannelsDec body
+      ok { payload := .channels c, typ := t }
+
+/-- `JoinAcceptPayload.UnmarshalBinary`: data[0:3], data[3:6], data[6:10], data[10:11], data[11], data[12:] -/
+def joinAcceptDec (data : Bytes) : Outcome JoinAccept :=
+  if data.length != 12 ∧ data.length != 28 then err
+  else do
+    let jn ← slice data 0 3
+    let nid ← slice data 3 6
+    let addr ← slice data 6 10
+    let dl ← slice data 10 11
+    let dl0 ← index dl 0
+    let rxd ← index data 11
+    let (o, r2, r1) := dlSettingsDec dl0
+    let base : JoinAccept :=
+      { joinNonce := BitVec.ofNat 32 (leNat jn), homeNetID := BitVec.ofNat 24 (leNat nid), devAddr := BitVec.ofNat 32 (leNat addr),
+        optNeg := o, rx2dr := r2, rx1off := r1, rxDelay := rxd, cfList := none }
+    if data.length == 28 then do
+      let rest ← slice data 12 data.length
+      let l ← cfListDec rest
+      ok { base with cfList := some l }
+    else ok base
+
+
 end LW.Checked
